@@ -155,7 +155,7 @@ func r11TagFirst(c *RuleCtx) {
 			}
 		}
 	}
-	c.add(statusOf(nFns >= 3 && nSites >= 5), "tag-first/sites", "-", "content uses of PostingsList.postings are found (pinned tree: Count, OrInto, iterator — 7 uses)", fmt.Sprintf("%d functions, %d uses", nFns, nSites), props, nil)
+	c.add(statusOf(nFns >= half(3) && nSites >= half(5)), "tag-first/sites", "-", "content uses of PostingsList.postings are found (pinned tree: Count, OrInto, iterator — 7 uses)", fmt.Sprintf("%d functions, %d uses", nFns, nSites), props, nil)
 }
 
 // ---------------------------------------------------------------------------
@@ -271,7 +271,7 @@ func r8CancelIdentity(c *RuleCtx) {
 				"a cancellation noticed below this call reaches the caller as a different error: Merge would not return the closed error (the property asks for that very error; wrapping loses it too)", props, bad)
 		}
 	}
-	c.add(statusOf(n >= 6), "cancel-identity/sites", "-", "call sites between the cancellation polls and the API are found (pinned tree: 8 without vectors)", fmt.Sprintf("found %d", n), props, nil)
+	c.add(statusOf(n >= half(6)), "cancel-identity/sites", "-", "call sites between the cancellation polls and the API are found (pinned tree: 8 without vectors)", fmt.Sprintf("found %d", n), props, nil)
 }
 
 // ---------------------------------------------------------------------------
@@ -324,7 +324,7 @@ func r29FlagPerPosting(c *RuleCtx) {
 				"a loop-invariant value is encoded with every posting of the term: postings that differ in it (a document without locations among documents with locations) are written with the wrong flag and the reader mis-steps through the location stream", props2, bad)
 		}
 	}
-	c.add(statusOf(n >= 3), "flag-per-posting/sites", "-", "calls of encodeFreqHasLocs inside postings loops are found (pinned tree: 2 in writeDicts, 1 in mergeTermFreqNormLocs)", fmt.Sprintf("found %d", n), props, nil)
+	c.add(statusOf(n >= half(3)), "flag-per-posting/sites", "-", "calls of encodeFreqHasLocs inside postings loops are found (pinned tree: 2 in writeDicts, 1 in mergeTermFreqNormLocs)", fmt.Sprintf("found %d", n), props, nil)
 }
 
 // definedInLoop: v (or something it is computed from, other than constants) is
@@ -1141,4 +1141,174 @@ func tableNameOfMap(mk *ssa.MakeMap) string {
 		}
 	}
 	return strings.ReplaceAll(mk.Type().String(), zapPkgPath+".", "")
+}
+
+// ---------------------------------------------------------------------------
+// R12b HANDED-BACK-RESET (C07, C12, C06)
+//
+// A lookup that is given a list to reuse (`rv *PostingsList`, `rv *SynonymsList`,
+// an iterator) and hands a list back must not hand the caller's object back as
+// it came: on a miss (unknown term, no FST) the caller would read the previous
+// term's postings out of it. Every returned value of the reusable type is nil,
+// a fresh object, a shared sentinel, the result of a function that satisfies
+// this clause itself, or the parameter after it was zeroed as a whole on the
+// way (a store, a reset method, or the row's reset function of R12).
+func r12HandedBackReset(c *RuleCtx) {
+	reusable := map[string][]string{}
+	for _, sp := range reuseTable {
+		if sp.Vectors && !c.p.Cfg.Vectors {
+			continue
+		}
+		reusable[sp.Struct] = sp.Props
+	}
+	typeOf := func(t types.Type) string {
+		p, ok := t.Underlying().(*types.Pointer)
+		if !ok {
+			return ""
+		}
+		n := namedOf(p.Elem())
+		if n == nil || n.Obj().Pkg() == nil || n.Obj().Pkg().Path() != zapPkgPath {
+			return ""
+		}
+		if _, ok := reusable[n.Obj().Name()]; ok {
+			return n.Obj().Name()
+		}
+		return ""
+	}
+	type cand struct {
+		fn  *ssa.Function
+		prm *ssa.Parameter
+		res int
+		sn  string
+	}
+	var cands []cand
+	for _, fn := range c.p.ZapFuncs {
+		if len(fn.Blocks) == 0 {
+			continue
+		}
+		res := fn.Signature.Results()
+		for i := 0; i < res.Len(); i++ {
+			sn := typeOf(res.At(i).Type())
+			if sn == "" {
+				continue
+			}
+			for _, p := range fn.Params {
+				if fn.Signature.Recv() != nil && p == fn.Params[0] {
+					continue
+				}
+				if typeOf(p.Type()) == sn {
+					cands = append(cands, cand{fn, p, i, sn})
+				}
+			}
+		}
+	}
+	isCand := map[*ssa.Function]cand{}
+	for _, cd := range cands {
+		isCand[cd.fn] = cd
+	}
+	memo := map[*ssa.Function]int{} // 1 in progress, 2 clean, 3 not clean
+	var witness map[*ssa.Function]ssa.Instruction = map[*ssa.Function]ssa.Instruction{}
+	var clean func(fn *ssa.Function) bool
+	clean = func(fn *ssa.Function) bool {
+		switch memo[fn] {
+		case 1, 2:
+			return true
+		case 3:
+			return false
+		}
+		memo[fn] = 1
+		cd := isCand[fn]
+		// where the parameter is zeroed as a whole
+		var zeroed []ssa.Instruction
+		eachInstr(fn, func(_ *ssa.BasicBlock, in ssa.Instruction) {
+			if st, ok := in.(*ssa.Store); ok && st.Addr == ssa.Value(cd.prm) {
+				if _, ok := wholeStructStore(st); ok {
+					zeroed = append(zeroed, in)
+				}
+			}
+			if cs, ok := in.(*ssa.Call); ok && len(cs.Call.Args) > 0 && cs.Call.Args[0] == ssa.Value(cd.prm) && resetHelper(cs.Call.StaticCallee()) != nil {
+				zeroed = append(zeroed, in)
+			}
+		})
+		var okVal func(v ssa.Value, at *ssa.BasicBlock, seen map[ssa.Value]bool) bool
+		okVal = func(v ssa.Value, at *ssa.BasicBlock, seen map[ssa.Value]bool) bool {
+			switch x := v.(type) {
+			case *ssa.Const:
+				return true
+			case *ssa.Alloc:
+				return true
+			case *ssa.Parameter:
+				if x != cd.prm {
+					return true // another object: not the reused one
+				}
+				for _, z := range zeroed {
+					if z.Block() == at || z.Block().Dominates(at) {
+						return true
+					}
+				}
+				return false
+			case *ssa.Phi:
+				if seen[v] {
+					return true
+				}
+				seen[v] = true
+				for i, e := range x.Edges {
+					if !okVal(e, x.Block().Preds[i], seen) {
+						return false
+					}
+				}
+				return true
+			case *ssa.Extract:
+				return okVal(x.Tuple, at, seen)
+			case *ssa.Call:
+				callee := x.Call.StaticCallee()
+				if callee == nil {
+					callee = resolvedCallee(x)
+				}
+				if callee == nil || !c.p.InZap(callee) {
+					return true // not a function of this package handing the parameter back
+				}
+				if _, ok := isCand[callee]; ok {
+					return clean(callee)
+				}
+				return true
+			case *ssa.UnOp:
+				return true // a load (a sentinel global, a field): not the parameter itself
+			case *ssa.ChangeType:
+				return okVal(x.X, at, seen)
+			case *ssa.MakeInterface:
+				return okVal(x.X, at, seen)
+			}
+			return true
+		}
+		for _, ret := range returnsOf(fn) {
+			if cd.res >= len(ret.Results) {
+				continue
+			}
+			if !okVal(returnedValueRaw(ret, cd.res), ret.Block(), map[ssa.Value]bool{}) {
+				memo[fn] = 3
+				witness[fn] = ret
+				return false
+			}
+		}
+		memo[fn] = 2
+		return true
+	}
+	n := 0
+	for _, cd := range cands {
+		n++
+		key := "handed-back-reset/" + funcShortName(cd.fn)
+		what := "every *" + cd.sn + " that " + funcShortName(cd.fn) + " hands back is nil, fresh, a sentinel, or the caller's object after it was zeroed as a whole"
+		if clean(cd.fn) {
+			c.okP(reusable[cd.sn], key, c.fpos(cd.fn), what)
+		} else {
+			pos := c.fpos(cd.fn)
+			if w := witness[cd.fn]; w != nil {
+				pos = c.pos(w)
+			}
+			c.badP(reusable[cd.sn], key, pos, what,
+				"a path hands the caller's reused object back without resetting it: it still holds the content decoded for the previous term (a miss looks like a hit)")
+		}
+	}
+	c.add(statusOf(n >= half(6)), "handed-back-reset/sites", "-", "functions that take a reusable object and hand one back are found (pinned tree: 8)", fmt.Sprintf("found %d", n), []string{"C07", "C12", "C06", "C13"}, nil)
 }
